@@ -107,6 +107,8 @@ def run(ctx):
             if i == 2:
                 # characters a terminal or a wrongly decoded file leaves in a password: DEL, C1 controls (not U+0085), a soft hyphen
                 pws += ['pass\x7fword7', 'admin\x9c42', '\x80x9', 'co\xadop1']
+                # digits that are not ASCII digits (full-width, Arabic-Indic), also behind a year prefix
+                pws += ['tokyo\uff11\uff12\uff13', 'mix7\uff18x', 'cairo\u0664\u0662', 'pass19\uff19\uff19']
             enc = 'utf-8'
             if i == 4:
                 # ... cased symbols that are not letters in front of / behind letter runs, context strings in other capitalisations
